@@ -1,4 +1,5 @@
 """Driver: verify one (contract, variant) — explore all paths of the real function, collect obligations."""
+import os
 import time
 import traceback
 
@@ -46,7 +47,7 @@ def verify_variant(contract, variant_name, timeout_ms=10000, registry=None):
         (o.status == "unknown" and o.kind not in ("model_limit",))
         or (o.status == "sat" and o.kind in ("inv_entry", "inv_preserved", "hint", "lemma", "decreases", "frame"))
         for o in sh.obligations)
-    if ((status == "unsupported" and "needs an invariant" in message) or undecided_obs) and not getattr(contract, "no_refute", False):
+    if (status == "unsupported" or undecided_obs) and not getattr(contract, "no_refute", False):
         # The code left the verified subset through a loop that has no invariant (typically: the function was edited).
         # Bounded refutation: explore executions with at most K iterations per such loop. Obligations that fail there fail for
         # real inputs (their counter-models are replayed natively); nothing is counted as proved in this mode.
@@ -54,7 +55,8 @@ def verify_variant(contract, variant_name, timeout_ms=10000, registry=None):
         sh2.refute_bound = 3
         worklist = [[]]
         try:
-            while worklist and sh2.paths < 400:
+            t_end = time.time() + float(os.environ.get("PYVC_REFUTE_BUDGET_S", "90"))
+            while worklist and sh2.paths < 400 and time.time() < t_end:
                 prefix = worklist.pop()
                 sh2.paths += 1
                 eng = Interp(sh2, contract, registry, prefix)
